@@ -1747,7 +1747,8 @@ class _Serializer:
             meth: Callable[[_Serializer, object], None] | None = getattr(
                 self.__class__, methodname, None
             )
-            if meth is None:
+            if meth is None or (tp.__module__ != "builtins" and tp is not Channel):
+                # also a subclass that merely carries a builtin's name
                 raise DumpError(f"can't serialize {tp}") from None
             dispatch = self._dispatch[tp] = meth
         dispatch(self, obj)
